@@ -56,7 +56,9 @@ def _scale_to(v, target=F(2)):
 def fam_flat_body(ctx, fkind, bkind, shape, fr_name, perm, through, dname, wname, swap, method, ufix=None):
     Kc, K, dirs, pts = (setup_body if bkind == 'ConvexPolyhedron' else setup_poly)(shape, fr_name, perm)
     P0 = pts[through]
-    d = _scale_to(dirs[dname], F(3))
+    d = _scale_to(dirs[dname.lstrip('-')], F(3))
+    if dname.startswith('-'):            # the same carrier traversed in the opposite sense
+        d = R.vscale(F(-1), d)
     w = _scale_to(dirs[wname], F(1)) if wname in dirs else None
     t = ctx.param('t')
     if fkind == 'Point':
@@ -182,11 +184,14 @@ def families(tier, seed):
                     ufs = [None]
                 else:
                     ufs = [None]
-                for uf in ufs:
-                    fams.append(Family('%s/%s/%s-%s-%s/%s%s%s' % (fkind, tag, through, dname, wname, 'swap' if swap else 'fwd', '/m' if method else '',
-                                                                 '' if uf is None else '/u=%s' % uf),
-                                       fam_flat_body, (fkind, bkind, shape, fr_name, perm, through, dname, wname, swap, method, uf),
-                                       budget_s=None if uf is not None or fkind in ('Point', 'Line') else 600))
+                # half-lines (thorough: segments, lines too) also in the opposite sense along the same carrier
+                senses = [dname] + (['-' + dname] if (fkind == 'HalfLine' and (tier != 'quick' or ti in (0, 2))) or (tier != 'quick' and fkind != 'Point' and ti == 1) else [])
+                for dn in senses:
+                    for uf in ufs:
+                        fams.append(Family('%s/%s/%s-%s-%s/%s%s%s' % (fkind, tag, through, dn, wname, 'swap' if swap else 'fwd', '/m' if method else '',
+                                                                     '' if uf is None else '/u=%s' % uf),
+                                           fam_flat_body, (fkind, bkind, shape, fr_name, perm, through, dn, wname, swap, method, uf),
+                                           budget_s=None if uf is not None or fkind in ('Point', 'Line') else 600))
         for ti, (through, dname, wname) in enumerate(ptmpl):
             if bkind == 'ConvexPolygon' and dname == 'diag':
                 continue
